@@ -93,8 +93,8 @@ static_assert(false, "LZCNT feature flag was not passed to compiler");
 static_assert(false, "POPCNT feature flag was not passed to compiler");
 #endif
 
-#if defined(AVEL_PREFETCH) && !defined(__PREFETCH__)
-static_assert(false, "POPCNT feature flag was not passed to compiler");
+#if defined(AVEL_PREFETCH) && !defined(__SSE__)
+static_assert(false, "SSE feature flag (prefetch instructions) was not passed to compiler");
 #endif
 
 
